@@ -47,111 +47,136 @@ pub fn model_templates(body: &[u8], blen: usize) -> (usize, [usize; 3], usize) {
     (m, starts, pos)
 }
 
-/// S/T: template flowset (id 0) against a symbolic one-entry cache.
-/// Decides: consumption = 4 + max(length-4, 0) or Err when the body is not available;
-/// records as sent; incomplete trailing record and leftovers = padding; cache afterwards =
-/// pre-state overwritten by exactly the contained complete records, last definition of an
-/// id wins, every other id untouched; options-template cache untouched.
-#[kani::proof]
-#[kani::stub(core::fmt::write, no_fmt)]
-fn s_v9_template() {
-    const B: usize = 12;
-    const N: usize = 4 + B + 2;
-    let mut p = V9Parser::default();
-    let c0: u16 = kani::any();
-    let cf = any_field();
-    let cf_copy = cf.clone();
-    p.templates.insert(c0, Template { template_id: c0, field_count: 1, fields: vec![cf] });
-    let mut buf: [u8; N] = kani::any();
-    buf[0] = 0;
-    buf[1] = 0;
-    let len = be16(&buf, 2);
-    let body = if len < 4 { 0 } else { (len - 4) as usize };
-    let r = FlowSet::parse(&buf, &mut p);
-    if body > N - 4 {
-        assert!(r.is_err());
-        // nothing learned from an unavailable body
-        assert!(p.templates.len() == 1);
-    } else {
-        kani::assume(body <= B);
-        match &r {
-            Ok((rem, fs)) => {
-                assert!(rem.len() == N - 4 - body);
-                assert!(fs.header.flowset_id == 0 && fs.header.length == len);
-                let (m, starts, end) = model_templates(&buf[4..], body);
-                match &fs.body {
-                    FlowSetBody::Template(ts) => {
-                        assert!(ts.templates.len() == m);
-                        assert!(ts.padding.len() == body - end);
-                        let pi: usize = kani::any();
-                        if pi < body - end {
-                            assert!(ts.padding[pi] == buf[4 + end + pi]);
-                        }
-                        let mut k = 0;
-                        while k < 3 {
-                            if k < m {
+/// S/T: template flowset (id 0) against a symbolic one-entry cache, one harness per
+/// *shape* (record count and per-record field counts are written into the buffer; ids,
+/// field types, field lengths, padding bytes and the cached entry are symbolic).
+/// Decides: consumption = length; records as sent; incomplete trailing record and
+/// leftovers = padding; cache afterwards = pre-state overwritten by exactly the contained
+/// complete records, last definition of an id wins, every other id untouched;
+/// options-template cache untouched.
+macro_rules! s_v9_template {
+    ($name:ident, $fcs:expr, $nrec:expr, $pad:expr, $trunc:expr) => {
+        #[kani::proof]
+        #[kani::stub(core::fmt::write, no_fmt)]
+        fn $name() {
+            const FCS: [u16; 3] = $fcs;
+            const NREC: usize = $nrec; // complete records
+            const PAD: usize = $pad; // trailing bytes after the complete records
+            const TRUNC: bool = $trunc; // the trailing bytes start a record that does not fit
+            const B: usize = {
+                let mut t = PAD;
+                let mut k = 0;
+                while k < NREC {
+                    t += 4 + 4 * FCS[k] as usize;
+                    k += 1;
+                }
+                t
+            };
+            const N: usize = 4 + B + 2;
+            let mut p = V9Parser::default();
+            let c0: u16 = kani::any();
+            let cf = any_field();
+            let cf_copy = cf.clone();
+            p.templates.insert(c0, Template { template_id: c0, field_count: 1, fields: vec![cf] });
+            let mut buf: [u8; N] = kani::any();
+            buf[0] = 0;
+            buf[1] = 0;
+            put16(&mut buf, 2, (4 + B) as u16);
+            let mut starts = [0usize; 3];
+            let mut pos = 4;
+            let mut k = 0;
+            while k < NREC {
+                starts[k] = pos;
+                put16(&mut buf, pos + 2, FCS[k]);
+                pos += 4 + 4 * FCS[k] as usize;
+                k += 1;
+            }
+            if TRUNC {
+                // PAD >= 4: a record header announcing more fields than remain
+                put16(&mut buf, pos + 2, 9);
+            }
+            let r = FlowSet::parse(&buf, &mut p);
+            match &r {
+                Ok((rem, fs)) => {
+                    assert!(rem.len() == 2);
+                    assert!(fs.header.flowset_id == 0 && fs.header.length == (4 + B) as u16);
+                    match &fs.body {
+                        FlowSetBody::Template(ts) => {
+                            assert!(ts.templates.len() == NREC);
+                            assert!(ts.padding.len() == PAD);
+                            let mut i = 0;
+                            while i < PAD {
+                                assert!(ts.padding[i] == buf[4 + B - PAD + i]);
+                                i += 1;
+                            }
+                            let mut k = 0;
+                            while k < NREC {
                                 let t = &ts.templates[k];
-                                let o = 4 + starts[k];
+                                let o = starts[k];
                                 assert!(t.template_id == be16(&buf, o));
-                                assert!(t.field_count == be16(&buf, o + 2));
-                                assert!(t.fields.len() == t.field_count as usize);
+                                assert!(t.field_count == FCS[k]);
+                                assert!(t.fields.len() == FCS[k] as usize);
                                 let mut j = 0;
-                                while j < 2 {
-                                    if j < t.fields.len() {
-                                        assert!(field_eq(&t.fields[j], &buf, o + 4 + 4 * j));
-                                    }
+                                while j < FCS[k] as usize {
+                                    assert!(field_eq(&t.fields[j], &buf, o + 4 + 4 * j));
                                     j += 1;
                                 }
+                                k += 1;
                             }
-                            k += 1;
-                        }
-                        // cache post-state, probed at an arbitrary id
-                        let q: u16 = kani::any();
-                        let mut last: usize = 3;
-                        let mut k = 0;
-                        while k < 3 {
-                            if k < m && be16(&buf, 4 + starts[k]) == q {
-                                last = k;
-                            }
-                            k += 1;
-                        }
-                        match p.templates.get(&q) {
-                            Some(t) => {
-                                if last < 3 {
-                                    let o = 4 + starts[last];
-                                    assert!(t.template_id == q);
-                                    assert!(t.field_count == be16(&buf, o + 2));
-                                    assert!(t.fields.len() == t.field_count as usize);
-                                    if t.fields.len() >= 1 {
-                                        assert!(field_eq(&t.fields[0], &buf, o + 4));
-                                    }
-                                    if t.fields.len() >= 2 {
-                                        assert!(field_eq(&t.fields[1], &buf, o + 8));
-                                    }
-                                } else {
-                                    assert!(q == c0);
-                                    assert!(t.template_id == c0 && t.field_count == 1 && t.fields.len() == 1);
-                                    assert!(t.fields[0] == cf_copy);
+                            // cache post-state, probed at an arbitrary id
+                            let q: u16 = kani::any();
+                            let mut last: usize = 3;
+                            let mut k = 0;
+                            while k < NREC {
+                                if be16(&buf, starts[k]) == q {
+                                    last = k;
                                 }
+                                k += 1;
                             }
-                            None => assert!(last == 3 && q != c0),
+                            match p.templates.get(&q) {
+                                Some(t) => {
+                                    if last < 3 {
+                                        let o = starts[last];
+                                        assert!(t.template_id == q);
+                                        assert!(t.field_count == FCS[last]);
+                                        assert!(t.fields.len() == FCS[last] as usize);
+                                        let mut j = 0;
+                                        while j < FCS[last] as usize {
+                                            assert!(field_eq(&t.fields[j], &buf, o + 4 + 4 * j));
+                                            j += 1;
+                                        }
+                                    } else {
+                                        assert!(q == c0);
+                                        assert!(t.template_id == c0 && t.field_count == 1 && t.fields.len() == 1);
+                                        assert!(t.fields[0] == cf_copy);
+                                    }
+                                }
+                                None => assert!(last == 3 && q != c0),
+                            }
+                            assert!(p.options_templates.len() == 0);
+                            kani::cover!(last == 3 && q == c0);
+                            kani::cover!(NREC == 0 || last == NREC - 1);
+                            kani::cover!(NREC < 2 || (last == 1 && be16(&buf, starts[0]) == q));
                         }
-                        assert!(p.options_templates.len() == 0);
-                        kani::cover!(m == 2 && be16(&buf, 4 + starts[0]) == be16(&buf, 4 + starts[1]) && q == c0);
-                        kani::cover!(m == 1 && ts.templates[0].field_count == 2);
-                        kani::cover!(m == 1 && body - end == 3);
-                        kani::cover!(m == 3);
-                        kani::cover!(last == 3 && q == c0);
+                        _ => assert!(false),
                     }
-                    _ => assert!(false),
                 }
+                Err(_) => assert!(false),
             }
-            Err(_) => assert!(false),
+            core::mem::forget(r);
+            core::mem::forget(p);
         }
-    }
-    core::mem::forget(r);
-    core::mem::forget(p);
+    };
 }
+s_v9_template!(s_v9_template_2f, [2, 0, 0], 1, 0, false);
+s_v9_template!(s_v9_template_1f_pad3, [1, 0, 0], 1, 3, false);
+s_v9_template!(s_v9_template_1f_1f, [1, 1, 0], 2, 2, false);
+s_v9_template!(s_v9_template_1f_0f_1f, [1, 0, 1], 3, 0, false);
+s_v9_template!(s_v9_template_1f_trunc, [1, 0, 0], 1, 6, true);
+s_v9_template!(s_v9_template_only_trunc, [0, 0, 0], 0, 5, true);
+
+/// S (C14/C06): template flowset whose declared length exceeds the buffer: Err, cache unchanged
+/// (see s_v9_truncated_t below for all lengths).
 
 pub fn scope_eq(f: &OptionsTemplateScopeField, b: &[u8], o: usize) -> bool {
     f.field_type_number == be16(b, o)
@@ -159,79 +184,72 @@ pub fn scope_eq(f: &OptionsTemplateScopeField, b: &[u8], o: usize) -> bool {
         && f.field_length == be16(b, o + 2)
 }
 
-/// S/T: options-template flowset (id 1) with room for one record of up to 2 fields.
-#[kani::proof]
-#[kani::stub(core::fmt::write, no_fmt)]
-fn s_v9_options_template() {
-    const B: usize = 14;
-    const N: usize = 4 + B;
-    let mut p = V9Parser::default();
-    let mut buf: [u8; N] = kani::any();
-    buf[0] = 0;
-    buf[1] = 1;
-    let len = be16(&buf, 2);
-    kani::assume(len >= 4 && (len as usize) <= N);
-    let body = (len - 4) as usize;
-    let r = FlowSet::parse(&buf, &mut p);
-    match &r {
-        Ok((rem, fs)) => {
-            assert!(rem.len() == N - 4 - body);
-            match &fs.body {
-                FlowSetBody::OptionsTemplate(ts) => {
-                    // reference: first record
-                    let complete = body >= 6 && {
-                        let sl = (be16(&buf, 6) / 4) as usize;
-                        let ol = (be16(&buf, 8) / 4) as usize;
-                        6 + 4 * (sl + ol) <= body
-                    };
-                    if complete {
-                        let sl = (be16(&buf, 6) / 4) as usize;
-                        let ol = (be16(&buf, 8) / 4) as usize;
-                        assert!(ts.templates.len() >= 1);
-                        let t = &ts.templates[0];
-                        assert!(t.template_id == be16(&buf, 4));
-                        assert!(t.options_scope_length == be16(&buf, 6));
-                        assert!(t.options_length == be16(&buf, 8));
-                        assert!(t.scope_fields.len() == sl && t.option_fields.len() == ol);
-                        if sl >= 1 {
-                            assert!(scope_eq(&t.scope_fields[0], &buf, 10));
-                        }
-                        if sl >= 2 {
-                            assert!(scope_eq(&t.scope_fields[1], &buf, 14));
-                        }
-                        if ol >= 1 {
-                            assert!(field_eq(&t.option_fields[0], &buf, 10 + 4 * sl));
-                        }
-                        if ol >= 2 {
-                            assert!(field_eq(&t.option_fields[1], &buf, 14 + 4 * sl));
-                        }
-                        let id = be16(&buf, 4);
-                        // the record is cached unless a later record in the same body redefines it
-                        assert!(p.options_templates.contains_key(&id));
-                        if ts.templates.len() == 1 {
-                            assert!(ts.padding.len() == body - 6 - 4 * (sl + ol));
+/// S/T: options-template flowset (id 1), shapes written (scope length, option length,
+/// padding), everything else symbolic.
+macro_rules! s_v9_options_template {
+    ($name:ident, $sl:expr, $ol:expr, $pad:expr) => {
+        #[kani::proof]
+        #[kani::stub(core::fmt::write, no_fmt)]
+        fn $name() {
+            const SL: usize = $sl; // scope fields
+            const OL: usize = $ol; // option fields
+            const PAD: usize = $pad;
+            const B: usize = 6 + 4 * (SL + OL) + PAD;
+            const N: usize = 4 + B + 1;
+            let mut p = V9Parser::default();
+            let mut buf: [u8; N] = kani::any();
+            buf[0] = 0;
+            buf[1] = 1;
+            put16(&mut buf, 2, (4 + B) as u16);
+            put16(&mut buf, 6, (4 * SL) as u16);
+            put16(&mut buf, 8, (4 * OL) as u16);
+            let r = FlowSet::parse(&buf, &mut p);
+            match &r {
+                Ok((rem, fs)) => {
+                    assert!(rem.len() == 1);
+                    match &fs.body {
+                        FlowSetBody::OptionsTemplate(ts) => {
+                            assert!(ts.templates.len() == 1);
+                            assert!(ts.padding.len() == PAD);
+                            let mut i = 0;
+                            while i < PAD {
+                                assert!(ts.padding[i] == buf[4 + B - PAD + i]);
+                                i += 1;
+                            }
+                            let t = &ts.templates[0];
+                            let id = be16(&buf, 4);
+                            assert!(t.template_id == id);
+                            assert!(t.options_scope_length == (4 * SL) as u16);
+                            assert!(t.options_length == (4 * OL) as u16);
+                            assert!(t.scope_fields.len() == SL && t.option_fields.len() == OL);
+                            let mut j = 0;
+                            while j < SL {
+                                assert!(scope_eq(&t.scope_fields[j], &buf, 10 + 4 * j));
+                                j += 1;
+                            }
+                            let mut j = 0;
+                            while j < OL {
+                                assert!(field_eq(&t.option_fields[j], &buf, 10 + 4 * SL + 4 * j));
+                                j += 1;
+                            }
+                            assert!(p.options_templates.len() == 1);
                             let ct = p.options_templates.get(&id).unwrap();
                             assert!(*ct == *t);
-                            assert!(p.options_templates.len() == 1);
+                            assert!(p.templates.len() == 0);
                         }
-                        kani::cover!(sl == 1 && ol == 1);
-                        kani::cover!(ts.templates.len() == 2);
-                    } else {
-                        assert!(ts.templates.len() == 0);
-                        assert!(ts.padding.len() == body);
-                        assert!(p.options_templates.len() == 0);
-                        kani::cover!(body == 9);
+                        _ => assert!(false),
                     }
-                    assert!(p.templates.len() == 0);
                 }
-                _ => assert!(false),
+                Err(_) => assert!(false),
             }
+            core::mem::forget(r);
+            core::mem::forget(p);
         }
-        Err(_) => assert!(false),
-    }
-    core::mem::forget(r);
-    core::mem::forget(p);
+    };
 }
+s_v9_options_template!(s_v9_options_template_1_1, 1, 1, 2);
+s_v9_options_template!(s_v9_options_template_2_0, 2, 0, 0);
+s_v9_options_template!(s_v9_options_template_0_2, 0, 2, 3);
 
 // ---- exact-on-domain models of the D layer (DESIGN §3.3): with every cached field length
 // >= 8 and a body of at most 7 bytes, no record and no field fits, so the real functions
